@@ -153,7 +153,7 @@ setup_block_b(coap_session_t *session, coap_pdu_t *pdu, coap_block_b_t *block,
       new_blk_size = coap_flsll((long long)avail) - 5;
       coap_log_debug("decrease block size for %zu to %d\n", avail, new_blk_size);
       szx = block->szx;
-      block->szx = new_blk_size;
+      block->szx = block->aszx = new_blk_size;
       block->num <<= szx - block->szx;
       block->chunk_size = (size_t)1 << (new_blk_size + 4);
     }
